@@ -22,7 +22,7 @@ claimed = {
 E4 = "E4 vxgen+vpure (exhaustive enumeration of complete finite input domains against independent references)"
 claimed.update({
  "C15": dict(engine=E4, design="5 (C15), 2 (E4)",
-   text="Every input of every translation table is enumerated, none sampled: all 2^16 combinations of the 12 inotify event bits plus ISDIR/IGNORED/UNMOUNT/Q_OVERFLOW through the real newEvent; all 2^9 operation subsets x {follow, no-follow} through a real AddWith on the real kernel with the resulting kernel-side mask and inode read back from /proc/self/fdinfo, and every ordered triple of non-empty subsets of the five portable operations requested one after the other for one path (thorough: every ordered pair over all nine, every 4-tuple over the single ones and the default) with the mask compared after each call; all 2^11 kqueue fflags x link-name present/absent and the subscribed note set; all 2^13 Windows masks through newEvent and toWindowsFlags, all action codes 0..8 through toFSnotifyFlags and their composition; xSupports of all four back ends over all 2^9 subsets. Each against an independently written reference table (union-of-parts by construction). Not only from the initial state: E2 histories on the real code with a directory and two of its entries watched under every pair of 8 operation sets, and repeated requests with a Remove in between, judged by the sequential reference model (a record the kernel produced for what was subscribed must surface as its operation) and by 'kernel mask of each watch = flags for the union of what was requested for it'.",
+   text="Every input of every translation table is enumerated, none sampled: all 2^16 combinations of the 12 inotify event bits plus ISDIR/IGNORED/UNMOUNT/Q_OVERFLOW through the real newEvent; all 2^9 operation subsets x {follow, no-follow} through a real AddWith on the real kernel with the resulting kernel-side mask and inode read back from /proc/self/fdinfo, and every ordered triple of non-empty subsets of the five portable operations requested one after the other for one path (thorough: every ordered pair over all nine, every 4-tuple over the single ones and the default) with the mask compared after each call; all 2^11 kqueue fflags x link-name present/absent and the subscribed note set; all 2^13 Windows masks through newEvent and toWindowsFlags, all action codes 0..8 through toFSnotifyFlags and their composition; xSupports of all four back ends over all 2^9 subsets. Each against an independently written reference table (union-of-parts by construction). Not only from the initial state: E2 histories on the real code with a directory and two of its entries watched under every pair of 8 operation sets, and repeated requests with a Remove in between, judged by the sequential reference model (a record the kernel produced for what was subscribed must surface as its operation) and by 'kernel mask of each watch = flags for the union of what was requested for it'; and E1: two callers requesting different single-operation sets for the same path at the same time, every interleaving up to preemption bound 2, same end-state oracle.",
    note="The kqueue functions come from the full transplant of that back end (verif/gen/kq); the Windows/FEN functions are extracted textually from the working tree (vxgen) and compiled against constants parsed from golang.org/x/sys v0.13.0; if a change makes them depend on other back-end code the extraction fails as an engine error, not as a verdict. The request-side reference is the documented per-operation flag set.",
    technique="exhaustive input-space enumeration (depth-1 bounded model checking) against a reference table"),
  "C16": dict(engine=E4, design="5 (C16), 2 (E4)",
@@ -30,7 +30,7 @@ claimed.update({
    note="Names of operations are taken from the documentation (CREATE ... CLOSE_READ); spacing inside Event.String is not constrained, content and order are.",
    technique="exhaustive input-space enumeration against an independent reference"),
  "C20": dict(engine=E4, design="5 (C20), 2 (E4)",
-   text="Diff is called on all ordered pairs of line sequences over {a, b, c, empty line} up to length 4 (quick) / 5 (thorough) in three whitespace variants, and on every two-letter sequence of length 7..10 (11) against all its single-line edits plus pairs of edits at opposite ends (separate hunks); the output is parsed, header ranges are checked against counted body lines and positions, leading/trailing context is bounded by 3, and the hunks are applied to the first text and compared with the second; empty output iff equal after TrimSpace. DiffMatch is called on all templates of <=3 tokens over {a, ., %(ANY), %(ANY 2), %(NUMBER), %(NUMBER 2), %(YEAR), newline} x all texts of <=3 (4) atoms and compared with an independent backtracking matcher.",
+   text="Diff is called on all ordered pairs of line sequences over {a, b, c, empty line} up to length 4 (quick) / 5 (thorough) in three whitespace variants, and on every two-letter sequence of length 7..10 (11) against all its single-line edits plus pairs of edits at opposite ends (separate hunks), and on all pairs of sequences up to length 3 (4) over eight lines whose content means something to printf, to a diff reader or to a tokenizer; the output is parsed, header ranges are checked against counted body lines and positions, leading/trailing context is bounded by 3, and the hunks are applied to the first text and compared with the second; empty output iff equal after TrimSpace. DiffMatch is called on all templates of <=3 tokens over {a, ., %(ANY), %(ANY 2), %(NUMBER), %(NUMBER 2), %(YEAR), newline} x all texts of <=3 (4) atoms and compared with an independent backtracking matcher.",
    note="diff.go is copied verbatim from the working tree. The parser accepts both the standard one-character markers and this implementation's six-character markers.",
    technique="exhaustive enumeration of input pairs up to a length bound with an apply-the-diff oracle"),
 })
